@@ -297,16 +297,42 @@ def has_not_over_cell(e, under_not=False):
     return any(has_not_over_cell(a, under_not) for a in e[1:])
 
 
-def complement_unit(task):
-    sd = task
+def complement_check(exprs, attrs, cid):
+    """the real pot_complement on cell `cid` of the table; returns None when the result denotes the expression
+    with #n := not region(n) for all sense assignments, else a message."""
     from t4_geom_convert.Kernel.Volume.CellConversion import CellConversion
     from t4_geom_convert.Kernel.Volume.CellMCNP import CellMCNP
     from t4_geom_convert.Kernel.Volume.DictVolumeT4 import DictVolumeT4
     from t4_geom_convert.Kernel.Surface.CollectionDict import CollectionDict
+    cells = {c: CellMCNP(attrs[c][0], None, to_ast(e), attrs[c][1], attrs[c][2], attrs[c][3], (), None, attrs[c][4])
+             for c, e in exprs.items()}
+    conv = CellConversion(100, 100, DictVolumeT4(), CollectionDict(), CollectionDict(), cells)
+
+    def region(c):
+        def BB(key):
+            if key[0] == 'c':
+                return region(key[1])
+            return B(key)
+        return den(exprs[c], BB)
+    try:
+        out = conv.pot_complement(cells[cid].geometry)
+        f = den_ast(out, B)
+    except Exception as ex:
+        return 'pot_complement raised %r' % (ex,)
+    s = z3.Solver()
+    s.add(z3.Xor(f, region(cid)))
+    r = s.check()
+    if r == z3.unsat:
+        return None
+    return 'pot_complement of cell %d denotes another function than the expression with #n := not region(n); result %r, senses %s' % (
+        cid, out, s.model() if r == z3.sat else r)
+
+
+def complement_unit(task):
+    sd = task
     rnd = random.Random(sd)
     res = {'obligations': 0, 'discharged': 0, 'paths': 0, 'violations': [], 'inconclusive': [], 'samples': [],
            'distinct': [], 'harness_errors': [], 'evaluations': 0}
-    s = z3.Solver()
     for it in range(120):
         # cells 1..4: cell k may refer to #j with j < k (chains of depth <= 3)
         exprs = {}
@@ -317,37 +343,26 @@ def complement_unit(task):
                 if not has_not_over_cell(ex):
                     break           # #( ... #n ... ) is known finding F16 (rejected at parse time), not this unit's subject
             exprs[cid] = ex
-        cells = {cid: CellMCNP('0', None, to_ast(e), 1.0, 0, None, (), None, []) for cid, e in exprs.items()}
-        conv = CellConversion(100, 100, DictVolumeT4(), CollectionDict(), CollectionDict(), cells)
-
-        def region(cid):
-            def BB(key):
-                if key[0] == 'c':
-                    return region(key[1])
-                return B(key)
-            return den(exprs[cid], BB)
+        # the other attributes of the complemented cell (material, importance, universe, FILL, TRCL) must not matter
+        attrs = {cid: (rnd.choice(['0', '3']), rnd.choice([1.0, 0.0]), rnd.choice([0, 0, 2]), rnd.choice([None, None, 3]),
+                       rnd.choice([None, []])) for cid in exprs}
         for cid in range(1, 5):
             res['obligations'] += 1
             res['evaluations'] += 1
-            try:
-                out = conv.pot_complement(cells[cid].geometry)
-                f = den_ast(out, B)
-            except Exception as ex:
-                res['violations'].append({'signature': {'kind': 'complement-exception'}, 'replay': '-',
-                                          'text': 'pot_complement raised %r on %r' % (ex, exprs)})
-                continue
-            s.push()
-            s.add(z3.Xor(f, region(cid)))
-            r = s.check()
-            s.pop()
-            if r == z3.unsat:
+            msg = complement_check(exprs, attrs, cid)
+            if msg is None:
                 res['discharged'] += 1
                 if not res['samples']:
                     res['samples'].append({'unit': 'pot_complement', 'cells': {k: str(v) for k, v in exprs.items()}, 'cell': cid,
                                            'verdict': 'equals the expression with #n := not region(n)'})
-            else:
-                res['violations'].append({'signature': {'kind': 'complement'}, 'replay': '-',
-                                          'text': 'pot_complement of cell %d in %r denotes another function' % (cid, exprs)})
+                continue
+            if len(res['violations']) >= 3:
+                continue
+            code = ('import sys\nsys.path.insert(0, "/verif")\nfrom vt.props import c11\n'
+                    'msg = c11.complement_check(%r, %r, %d)\nassert msg is None, msg\n' % (exprs, attrs, cid))
+            v = unit_violation(PROP, {'kind': 'complement'}, 'cell table %r, attributes (material, importance, universe, fill, trcl) %r: %s'
+                               % (exprs, attrs, msg[:300]), code)
+            (res['violations'] if v else res['harness_errors']).append(v or 'complement mismatch not reproduced: %s' % msg[:200])
         res['paths'] += 1
     res['distinct'] = ['compl|%d|%d' % (sd, i) for i in range(50)]
     return res
